@@ -4,6 +4,7 @@ import (
 	"fmt"
 	"io"
 	"strings"
+	"sync"
 	"time"
 
 	tally "github.com/uber-go/tally/v4"
@@ -18,6 +19,9 @@ func runC04(c *mon.Ctx) {
 		c04Case(c, r)
 		if i%4 == 0 {
 			c04AliasLength(c, r.Fork(41))
+		}
+		if i%8 == 2 {
+			c04ConcurrentSiblings(c, r.Fork(43))
 		}
 		if i%4 == 1 {
 			invalidTwinsCase(c, r.Fork(42), "wrong-name-or-tags/invalid-bytes", false)
@@ -481,4 +485,60 @@ func invalidTwinsCase(c *mon.Ctx, r *mon.Rand, sig string, checkPtr bool) {
 		c.Violation(sig, map[string]interface{}{"why": fmt.Sprintf("counter of the second derivation: %d delivered under name %q tags %q, 2 recorded", got, n2, t2), "case": desc})
 	}
 	c.Event("invalid-byte-twins", 1)
+}
+
+// c04ConcurrentSiblings: several goroutines keep asking ONE parent (the root
+// in a third of the runs, else a derived scope with tags of its own) for
+// children with different tag maps, each goroutine for its own two maps in
+// turn, and add 1 to a counter of what they are handed. Whatever the
+// interleaving, what arrives for each (parent tags overlaid by the map given)
+// is exactly what was added under it: nobody is handed a sibling.
+func c04ConcurrentSiblings(c *mon.Ctx, r *mon.Rand) {
+	pr := mon.NewPlainRec(false)
+	root, _ := vNewRoot(tally.ScopeOptions{Reporter: pr, OmitCardinalityMetrics: true, Tags: map[string]string{"rt": "x"}}, 0, uint(r.Range(0, 4)))
+	parent, ptags, pname := root, map[string]string{"rt": "x"}, "c"
+	switch r.Intn(3) {
+	case 1:
+		parent, ptags = root.Tagged(map[string]string{"pk": "pv"}), map[string]string{"rt": "x", "pk": "pv"}
+	case 2:
+		parent, ptags, pname = root.SubScope("p").Tagged(map[string]string{"pk": "pv", "rt": "y"}), map[string]string{"rt": "y", "pk": "pv"}, "p.c"
+	}
+	G := r.Range(2, 8)
+	iters := r.Range(500, 3000)
+	var wg sync.WaitGroup
+	start := make(chan struct{})
+	for g := 0; g < G; g++ {
+		wg.Add(1)
+		go func(g int) {
+			defer wg.Done()
+			a := map[string]string{"g": fmt.Sprint(g), "v": "a"}
+			b := map[string]string{"g": fmt.Sprint(g), "v": "b", "pk": "over"}
+			<-start
+			for i := 0; i < iters; i++ {
+				parent.Tagged(a).Counter("c").Inc(1)
+				if i%3 == 0 {
+					parent.Tagged(b).Counter("c").Inc(1)
+				}
+			}
+		}(g)
+	}
+	close(start)
+	wg.Wait()
+	tally.VerifReportPass(root)
+	_, agg, _ := pr.Snapshot()
+	desc := map[string]interface{}{"goroutines": G, "iterations": iters, "parent_tags": ptags, "counter": pname}
+	for g := 0; g < G; g++ {
+		wa := mon.RefOverlay(ptags, map[string]string{"g": fmt.Sprint(g), "v": "a"})
+		wb := mon.RefOverlay(ptags, map[string]string{"g": fmt.Sprint(g), "v": "b", "pk": "over"})
+		if got := agg[mon.IdentKey(pname, wa)].Sum; got != int64(iters) {
+			c.Violation("wrong-name-or-tags/concurrent-siblings", map[string]interface{}{"why": fmt.Sprintf("counter %s with tags %v: delivered %d, goroutine %d added %d through the scopes it was handed for exactly these tags", pname, wa, got, g, iters), "case": desc})
+			break
+		}
+		if got, want := agg[mon.IdentKey(pname, wb)].Sum, int64((iters+2)/3); got != want {
+			c.Violation("wrong-name-or-tags/concurrent-siblings", map[string]interface{}{"why": fmt.Sprintf("counter %s with tags %v: delivered %d, goroutine %d added %d through the scopes it was handed for exactly these tags", pname, wb, got, g, want), "case": desc})
+			break
+		}
+	}
+	c.Event("concurrent-sibling-derivations", int64(G*iters))
+	c.Eval(1)
 }
